@@ -55,7 +55,7 @@ def run(prop, tier, seed):
             broken.append(("theorem", "lake build of %s failed at: %s" % (P.LEAN_MODULE, ", ".join(names))))
             notes.append(out[-3000:])
         else:
-            hits = core.forbidden_hits()
+            hits = core.forbidden_hits([P.LEAN_MODULE, "Driver.%s" % prop])
             if hits:
                 broken.append(("audit", "forbidden tokens in Lean sources: %s" % "; ".join(hits[:5])))
             aok, axioms, problems = core.audit(P.LEAN_MODULE, theorems)
